@@ -680,6 +680,22 @@ M("t3-shift-reorder", "C17", "quiet", "src/check.rs",
                     expect_num_type(&x.ty, x.meta)?;""", "behaviour-preserving for acceptance: checks reordered")
 
 # ---------------------------------------------------------------- C07
+REVERT("revert-wildcard-columns-not-split", "C07", "fire F14", "c0d878e", "pre-fix tree: usefulness splits columns that only identifiers look at (2^n)")
+M("f14-quiet-flag-loop", "C07", "quiet", "src/check.rs",
+  """    } else if patterns
+        .iter()
+        .all(|p| matches!(p.first(), Some(Pattern(PatternEnum::Identifier(_), _, _))))
+    {""",
+  """    } else if {
+        let mut only_identifiers = true;
+        for p in patterns.iter() {
+            match p.first() {
+                Some(Pattern(PatternEnum::Identifier(_), _, _)) => {}
+                _ => only_identifiers = false,
+            }
+        }
+        only_identifiers
+    } {""", "same test written as a loop with a flag")
 REVERT("revert-comment-hang", "C07", "fire F1", "a4bd399", "pre-fix tree: unterminated block comment loops forever")
 REVERT("revert-eof-unwrap", "C07", "fire F4", "c315b42", "pre-fix tree: peek().unwrap() at end of input")
 REVERT("revert-range-underflow", "C07", "fire F6", "a0c58da", "pre-fix tree: range_end - 1 on a token payload")
@@ -1786,6 +1802,18 @@ M("s4-b-rows-not-truncated", "C05", "fire S4", "src/compile.rs",
   """        let tag_b = b.remove(join_ty_size);""", "seed C05-b: rows of b keep the padding")
 
 # ---------------------------------------------------------------- C01
+REVERT("revert-foreach-per-element", "C01", "fire V3", "fb2511c", "pre-fix tree: for-each counts groups of wires, zero-sized elements never iterate")
+M("v3-quiet-foreach-index", "C01", "quiet", "src/compile.rs",
+  """                    let Some(binding) = array.get(i..i + elem_in_bits) else {
+                        break;
+                    };""",
+  """                    let binding = &array[i..i + elem_in_bits];""", "same loop with a plain slice")
+M("v3-foreach-count-from-wires-again", "C01", "fire V3", "src/compile.rs",
+  """                for _ in 0..size {
+                    let Some(binding) = array.get(i..i + elem_in_bits) else {""",
+  """                let _ = size;
+                for _ in 0..array.len().checked_div(elem_in_bits).unwrap_or(0) {
+                    let Some(binding) = array.get(i..i + elem_in_bits) else {""", "iteration count computed from the wires")
 M("v1-if-branches-swapped", "C01", "fire V1", "src/compile.rs",
   """                    gate_indexes.push(circuit.push_mux(condition, case_true[i], case_false[i]));""",
   """                    gate_indexes.push(circuit.push_mux(condition, case_false[i], case_true[i]));""", "if returns the else value when the condition holds")
@@ -2589,7 +2617,43 @@ M("e11-quiet-clone-then-drop", "C14", "quiet", "src/parse.rs",
                         ExprEnum::Op(Op::LessThan, Box::new(lhs), Box::new(y)),
                         meta,
                     );""", "behaviour-preserving: the operand is cloned and the original dropped")
-REVERT("revert-for-iteration-scope", "C14", "fire E13", "3e3a2e6", "pre-fix tree: one scope for all iterations of a for loop")
+M("revert-for-iteration-scope", "C14", "fire E13", "src/compile.rs",
+  """                let array = array.compile(prg, env, circuit);
+
+                // one iteration per element, also if the elements do not have any bits:
+                let mut i = 0;
+                for _ in 0..size {
+                    let Some(binding) = array.get(i..i + elem_in_bits) else {
+                        break;
+                    };
+                    // the bindings of an iteration end with the iteration:
+                    env.push();
+                    pattern.compile(binding, prg, env, circuit);
+
+                    for stmt in body {
+                        stmt.compile(prg, env, circuit);
+                    }
+                    env.pop();
+                    i += elem_in_bits;
+                }
+                vec![]""",
+  """                env.push();
+                let array = array.compile(prg, env, circuit);
+
+                let mut i = 0;
+                for _ in 0..size {
+                    let Some(binding) = array.get(i..i + elem_in_bits) else {
+                        break;
+                    };
+                    pattern.compile(binding, prg, env, circuit);
+
+                    for stmt in body {
+                        stmt.compile(prg, env, circuit);
+                    }
+                    i += elem_in_bits;
+                }
+                env.pop();
+                vec![]""", "essence of the pre-fix tree of 3e3a2e6 (the reverse patch no longer applies after fb2511c): one scope for all iterations of a for loop")
 REVERT("revert-callee-environment", "C14", "fire E14", "ead44eb", "pre-fix tree: callee bodies lowered on the caller's environment; entry parameters share the scope of the consts")
 M("e14-callee-on-copy-of-caller-env", "C14", "fire E14", "src/compile.rs",
   """                let mut env = env.outermost_scope();
@@ -2599,17 +2663,19 @@ M("e14-callee-on-copy-of-caller-env", "C14", "fire E14", "src/compile.rs",
                 env.push();
                 for (var, binding) in bindings {""", "the callee is lowered on a copy of the whole caller environment: its mutations are invisible, but the caller's names still shadow the consts")
 M("e13-scope-per-loop-not-iteration", "C14", "fire E13 E2", "src/compile.rs",
-  """                let mut i = 0;
-                while i < array.len() {
+  """                for _ in 0..size {
+                    let Some(binding) = array.get(i..i + elem_in_bits) else {
+                        break;
+                    };
                     // the bindings of an iteration end with the iteration:
-                    env.push();
-                    let binding = &array[i..i + elem_in_bits];""",
-  """                let mut i = 0;
-                env.push();
-                while i < array.len() {
+                    env.push();""",
+  """                env.push();
+                for _ in 0..size {
+                    let Some(binding) = array.get(i..i + elem_in_bits) else {
+                        break;
+                    };
                     env.pop();
-                    env.push();
-                    let binding = &array[i..i + elem_in_bits];""", "scope opened before the loop and re-opened at the start of every iteration: push / pop no longer pair up")
+                    env.push();""", "scope opened before the loop and re-opened at the start of every iteration: push / pop no longer pair up")
 M("e14-quiet-params-scope-before-consts", "C14", "quiet", "src/compile.rs",
   """        env.push();
         for (param, wires) in params {
